@@ -27,6 +27,7 @@ struct Registry
     std::string error; // first accounting error of the case
     long countdown = 0; // 0 = disarmed; n = the n-th copy/move throws
     long ctor_countdown = 0; // 0 = disarmed; n = the n-th construction from a value throws
+    bool default_is_caller = false; // a default construction requested by the caller (emplace_back())
     std::uint64_t copies = 0, moves = 0, faults_thrown = 0;
 
     void reset()
@@ -35,6 +36,7 @@ struct Registry
         error.clear();
         countdown = 0;
         ctor_countdown = 0;
+        default_is_caller = false;
         copies = moves = faults_thrown = 0;
     }
     void born(const void* p)
@@ -85,7 +87,7 @@ struct Tracked
     int origin = CONTAINER_DEFAULT;
     bool moved_from = false;
 
-    Tracked()
+    Tracked() : origin(reg().default_is_caller ? CALLER : CONTAINER_DEFAULT)
     {
         reg().born(this);
     }
@@ -137,7 +139,7 @@ struct MoTracked
     int origin = CONTAINER_DEFAULT;
     bool moved_from = false;
 
-    MoTracked()
+    MoTracked() : origin(reg().default_is_caller ? CALLER : CONTAINER_DEFAULT)
     {
         reg().born(this);
     }
